@@ -423,6 +423,8 @@ func (r *resolver) applyDeviation(y *Module, d *Deviation) error {
 	// violations are errors, not silent ignores.
 	hasDets, _ := target.(HasDetails)
 	hasType, _ := target.(Leafable)
+	// leaf, leaf-list and choice
+	hasDflt, _ := target.(deviableDefault)
 	hasListDets, _ := target.(HasListDetails)
 	for _, dv := range []interface{}{d.Add, d.Replace, d.Delete} {
 		// make sure target supports what is being deviated
@@ -456,7 +458,7 @@ func (r *resolver) applyDeviation(y *Module, d *Deviation) error {
 		if (max != nil || min != nil) && hasListDets == nil {
 			return fmt.Errorf("%s does not support min-elements or max-elements", d.Ident())
 		}
-		if (units != "" || hasDefault) && hasType == nil {
+		if (units != "" && hasType == nil) || (hasDefault && hasDflt == nil) {
 			return fmt.Errorf("%s does not support units or default", d.Ident())
 		}
 		if hasUnique {
@@ -508,11 +510,11 @@ func (r *resolver) applyDeviation(y *Module, d *Deviation) error {
 			hasType.setUnits(d.Add.units)
 		}
 		if d.Add.HasDefault() {
-			if hasType.HasDefault() {
+			if hasDflt.HasDefault() {
 				return fmt.Errorf("default already set on %s", d.Ident())
 			}
 			for _, deflt := range d.Add.Default() {
-				hasType.addDefault(deflt)
+				hasDflt.addDefault(deflt)
 			}
 		}
 		for _, unique := range d.Add.unique {
@@ -561,16 +563,18 @@ func (r *resolver) applyDeviation(y *Module, d *Deviation) error {
 			hasType.setUnits(d.Replace.units)
 		}
 		if d.Replace.HasDefault() {
-			if !hasType.HasDefault() {
+			if !hasDflt.HasDefault() {
 				return fmt.Errorf("default not set on %s", d.Ident())
 			}
 			defaults := d.Replace.Default()
-			if v, valid := hasType.(HasDefaultValues); valid {
+			if v, valid := target.(HasDefaultValues); valid {
 				v.setDefault(defaults)
 			} else if len(defaults) > 1 {
 				return fmt.Errorf("only supports single default %s", d.Ident())
+			} else if v, valid := target.(HasDefaultValue); valid {
+				v.setDefault(defaults[0])
 			} else {
-				hasType.(HasDefaultValue).setDefault(defaults[0])
+				return fmt.Errorf("%s does not support default", d.Ident())
 			}
 		}
 	}
@@ -583,12 +587,27 @@ func (r *resolver) applyDeviation(y *Module, d *Deviation) error {
 			hasType.setUnits("")
 		}
 		if d.Delete.HasDefault() {
-			if !isArrayStringEqual(defaultsOf(hasType), d.Delete.Default()) {
-				return fmt.Errorf("cannot delete default '%s' != '%s' on %s",
-					d.Delete.Default(), hasType.DefaultValue(),
-					d.Ident())
+			// a leaf-list has several defaults, any of them may be deleted
+			remaining := defaultsOf(hasDflt)
+			for _, unwanted := range d.Delete.Default() {
+				found := false
+				for i, candidate := range remaining {
+					if candidate == unwanted {
+						remaining = append(remaining[:i], remaining[i+1:]...)
+						found = true
+						break
+					}
+				}
+				if !found {
+					return fmt.Errorf("cannot delete default '%s' != '%s' on %s",
+						d.Delete.Default(), hasDflt.DefaultValue(),
+						d.Ident())
+				}
 			}
-			hasType.clearDefault()
+			hasDflt.clearDefault()
+			for _, keep := range remaining {
+				hasDflt.addDefault(keep)
+			}
 		}
 		for _, unique := range d.Delete.unique {
 			found := false
@@ -628,7 +647,15 @@ func (r *resolver) applyDeviation(y *Module, d *Deviation) error {
 }
 
 // defaultsOf gives default or defaults of leaf or leaf-list
-func defaultsOf(t Leafable) []string {
+// deviableDefault is what can be given, or relieved of, a default by a deviation
+type deviableDefault interface {
+	HasDefault() bool
+	DefaultValue() interface{}
+	addDefault(string)
+	clearDefault()
+}
+
+func defaultsOf(t deviableDefault) []string {
 	switch x := t.DefaultValue().(type) {
 	case string:
 		return []string{x}
@@ -642,6 +669,9 @@ func isArrayStringEqual(a []string, b []string) bool {
 	if len(a) != len(b) {
 		return false
 	}
+	// not in place, the order of what is compared is the order of the text
+	a = append([]string{}, a...)
+	b = append([]string{}, b...)
 	sort.Strings(a)
 	sort.Strings(b)
 	for i := range a {
@@ -1057,6 +1087,11 @@ func (r *resolver) expandAugment(y *Augment, parent Meta) error {
 	}
 
 	for _, orig := range y.Actions() {
+		if on, err := checkFeature(orig); err != nil {
+			return err
+		} else if !on {
+			continue
+		}
 		hasActions, valid := target.(HasActions)
 		if !valid {
 			return fmt.Errorf("%s - %T does not allow actions", SchemaPath(y), target)
@@ -1071,6 +1106,11 @@ func (r *resolver) expandAugment(y *Augment, parent Meta) error {
 	}
 
 	for _, orig := range y.Notifications() {
+		if on, err := checkFeature(orig); err != nil {
+			return err
+		} else if !on {
+			continue
+		}
 		hasNotifs, valid := target.(HasNotifications)
 		if !valid {
 			return fmt.Errorf("%s - %T does not allow notifications", SchemaPath(y), target)
